@@ -170,8 +170,14 @@ def main():
     gsrv = lg.Server(g_respond, log=glog)
     hsrv = lh.Server(h_respond, log=hlog)
 
+    # a caller's own metadata LIST, one object handed to every other call of a session (Sequence[Tuple[str, str]] is what the
+    # emitted signature asks for): what one call adds to its metadata is no business of the next call
+    shared = [('x-verif-caller', '1')]
+
     def begin(c):
         state['case'], state['count'] = c, 0
+        state['n'] = state.get('n', 0) + 1
+        return dict(metadata=shared) if state['n'] % 2 == 0 else {}
 
     def grpc_seen(n0, expected_path, err):
         ents = [x for x in glog[n0:] if x['ev'] == 'ServerRecv']
@@ -187,9 +193,9 @@ def main():
             mod, client, ch = rt.grpc_client(pl['module'], pl['service_snake'], pl['service'], gsrv.target, chlog)
             for c in pl['cases']:
                 n0 = len(glog); err = None
-                begin(c)
+                kw = begin(c)
                 try:
-                    res = getattr(client, c['method'])(request=c['request'])
+                    res = getattr(client, c['method'])(request=c['request'], **kw)
                     if c.get('paged'):
                         for _ in res:
                             pass
@@ -204,9 +210,9 @@ def main():
                                                  chlog, asyncio_=True)
                 for c in pl['cases']:
                     n0 = len(glog); err = None
-                    begin(c)
+                    kw = begin(c)
                     try:
-                        res = await getattr(client, c['method'])(request=c['request'])
+                        res = await getattr(client, c['method'])(request=c['request'], **kw)
                         if c.get('paged'):
                             async for _ in res:
                                 pass
@@ -220,9 +226,9 @@ def main():
             mod, client = rt.rest_client(pl['module'], pl['service_snake'], pl['service'], hsrv.hostport)
             for c in pl['cases']:
                 n0 = len(hlog); err = None
-                begin(c)
+                kw = begin(c)
                 try:
-                    res = getattr(client, c['method'])(request=c['request'])
+                    res = getattr(client, c['method'])(request=c['request'], **kw)
                     if c.get('paged'):
                         for _ in res:
                             pass
